@@ -82,6 +82,10 @@ func pool() map[string]*config.Config {
 		return clone(c)
 	}
 	bind := func(c *config.Config) { c.Config.Bind = "127.0.0.1:25566" }
+	noreload := func(c *config.Config) { c.NoAutoReload = !c.NoAutoReload }
+	health := func(c *config.Config) { c.HealthService.Bind = "127.0.0.1:9191" }
+	connect := func(c *config.Config) { c.Connect.Name = "verif-endpoint" }
+	api := func(c *config.Config) { c.API.Config.Bind = "127.0.0.1:8181" }
 	return map[string]*config.Config{
 		"same":    mk("r0", nil),
 		"A":       mk("rA", nil),
@@ -91,7 +95,16 @@ func pool() map[string]*config.Config {
 		"other":   mk("r0", bind),
 		"otherA":  mk("rA", bind),
 		"liteoff": mk("r0", func(c *config.Config) { c.Config.Lite.Enabled = false }),
-		"none":    nil,
+		// one difference in each section outside the Java config, alone and with a route change
+		"noreload":  mk("r0", noreload),
+		"noreloadA": mk("rA", noreload),
+		"health":    mk("r0", health),
+		"healthA":   mk("rA", health),
+		"connect":   mk("r0", connect),
+		"connectA":  mk("rA", connect),
+		"api":       mk("r0", api),
+		"apiA":      mk("rA", api),
+		"none":      nil,
 	}
 }
 
@@ -134,7 +147,8 @@ func js(v any) string {
 
 func newWorld(t *testing.T) *world {
 	w := &world{pool: pool(), byJSON: map[string]string{}, routeBy: map[string]string{}}
-	for _, name := range []string{"liteoff", "otherA", "other", "inv", "B", "A2", "A", "same"} {
+	for _, name := range []string{"apiA", "api", "connectA", "connect", "healthA", "health", "noreloadA", "noreload",
+		"liteoff", "otherA", "other", "inv", "B", "A2", "A", "same"} {
 		w.byJSON[js(w.pool[name])] = name
 	}
 	for id, r := range routeSets {
@@ -337,7 +351,8 @@ func TestLiveConfig(t *testing.T) {
 
 	// 2. seeded sequential histories over the whole pool, observed after every operation
 	rng := rand.New(rand.NewSource(tracefmt.Seed()))
-	names := []string{"same", "A", "A2", "A", "A2", "B", "inv", "other", "otherA", "liteoff", "none"}
+	names := []string{"same", "A", "A2", "A", "A2", "B", "inv", "other", "otherA", "liteoff", "none",
+		"noreload", "noreloadA", "health", "healthA", "connect", "connectA", "api", "apiA"}
 	nSeq := tracefmt.EnvInt("VERIF_SEQ", 60)
 	for i := 0; i < nSeq; i++ {
 		w := begin(i, "sequential")
